@@ -77,6 +77,33 @@ def _mapped_table(F, fn):
     return None
 
 
+def _pair_table(fn):
+    """rows [(a, b)] of a constant array of >= 8 string pairs that fn iterates (`for (variable, default) in DEFAULT_VALUES`), with the
+    block of the iterator call; None when fn does not iterate such a table"""
+    du = du_of(fn)
+    for bid, t in fn.calls():
+        c = callee_name(t) or ""
+        if not (c.endswith("::into_iter") or c.endswith("::iter")) or not t["args"]:
+            continue
+        v = du.val_operand(t["args"][0])
+        while v[0] in ("cast",):
+            v = v[2]
+        if v[0] in ("ref", "place"):
+            v = du.val_place((v[1][0], tuple(e for e in v[1][1] if e != "*")))
+        if v[0] == "const" and isinstance(v[1], dict) and isinstance(v[1].get("fields"), dict) and len(v[1]["fields"]) >= 8:
+            rows = []
+            for k in sorted(v[1]["fields"], key=lambda x: int(x) if str(x).isdigit() else 0):
+                e = v[1]["fields"][k]
+                f = e.get("fields") if isinstance(e, dict) else None
+                if not (isinstance(f, dict) and isinstance(f.get("0"), str) and isinstance(f.get("1"), str)):
+                    rows = None
+                    break
+                rows.append((f["0"], f["1"]))
+            if rows:
+                return rows, bid
+    return None
+
+
 def run(ctx):
     F, G, R = ctx.F, ctx.G, ctx.R
     chk = Check("C12", ctx.tier, "Fold order defaults < environment < file < command line; flag table complete, distinct and paired with the setting constants; defaults guarded and paired; every documented spelling reaches a table entry; writers unconditional; getters read their own variables.")
@@ -114,7 +141,7 @@ def run(ctx):
     role = {}
     for fn in fns:
         nset = len(calls(fn, lambda c: c == "std::env::set_var"))
-        if nset >= 8:
+        if nset >= 8 or (nset >= 1 and _pair_table(fn) is not None):
             role["defaults"] = fn
         if calls(fn, lambda c: c == "std::env::args"):
             role["cli"] = fn
@@ -219,8 +246,36 @@ def run(ctx):
     dcfg = cfg_of(dfn)
     dg = guards_of(dfn)
     seen_n = set()
+    ptab = _pair_table(dfn)
+    if ptab is not None:
+        # table form: `for (variable, default) in TABLE { match env::var(variable) { Err(_) => set_var(variable, default), .. } }`
+        rows, _ib = ptab
+        by_value = {v_: n_ for n_, v_ in names.items()}
+        # the one set_var of the loop takes both fields of the SAME element, on an edge where env::var of its first field is not Ok
+        shape_ok = False
+        for bid, t in dfn.calls():
+            if callee_name(t) != "std::env::set_var" or len(t["args"]) < 2:
+                continue
+            a0, a1 = ddu.val_operand(t["args"][0]), ddu.val_operand(t["args"][1])
+            same_elem = a0[0] == "place" and a1[0] == "place" and a0[1][0] == a1[1][0] and a0[1][1][:-1] == a1[1][1][:-1] \
+                and a0[1][1] and a1[1][1] and a0[1][1][-1][:2] == ("f", 0) and a1[1][1][-1][:2] == ("f", 1)
+            guarded = False
+            for e_, f_ in dg.facts():
+                if f_[0] == "variant" and f_[3] is False:
+                    pv = ddu.val_place(ddu.canon(f_[1]))
+                    if pv[0] == "call" and pv[1] == "std::env::var" and pv[2] and pv[2][0] == a0 and dcfg.edge_dominates(e_, bid):
+                        guarded = True
+            shape_ok = shape_ok or (same_elem and guarded)
+        for a_, b_ in rows:
+            n = by_value.get(a_)
+            ok_pair = n is not None and defaults.get(n) == b_
+            if n is not None:
+                seen_n.add(n)
+            r3.instance({"setting": n or a_, "default_in_table": b_, "guarded_by_unset_test": shape_ok, "form": "table"}, ok_pair and shape_ok)
+            if not (ok_pair and shape_ok):
+                r3.violate("C12|R3|%s" % (n or a_), "defaults table: the row (%r, %r) is %s" % (a_, b_, "not (setting, its own default)" if not ok_pair else "installed by a set_var that is not `set_var(row.0, row.1)` under 'env::var(row.0) is not Ok': it would overwrite a value from the environment"), dfn.file, dfn.span["line"], dfn.def_)
     for bid, t in dfn.calls():
-        if callee_name(t) != "std::env::set_var":
+        if callee_name(t) != "std::env::set_var" or ptab is not None:
             continue
         nv, vv = ddu.val_operand(t["args"][0]), ddu.val_operand(t["args"][1])
         ni, vi = const_item(nv) or "", const_item(vv) or ""
@@ -377,6 +432,7 @@ def run(ctx):
         if gfn is None:
             r5.violate("C12|R5|anchor-missing|%s" % gname, "getter %s not found" % gname)
             continue
+        gfn = ctx.inl(gfn)          # `read_number::<T>(VARIABLE)`: the env::var call may sit in a private helper (A11)
         gdu = du_of(gfn)
         ld = local_deps(gfn)
         # locals holding env::var(N) results
@@ -384,18 +440,25 @@ def run(ctx):
         for bid, t in gfn.calls():
             if callee_name(t) == "std::env::var" and t["args"]:
                 src[t["dest"]["l"]] = const_str(gdu.val_operand(t["args"][0]))
-        rets = []
+        # every definition of the result (one per arm of a `match`): per tuple position, the operands that flow into it
+        rets_all = []
         for b in gfn.blocks:
+            if b.get("cleanup"):
+                continue
             for s in b["stmts"]:
                 if s["k"] == "assign" and s["place"]["l"] == 0 and not s["place"]["p"]:
                     if s["rv"]["k"] == "aggregate" and s["rv"].get("agg") == "tuple":
-                        rets = s["rv"]["ops"]
+                        rets_all.append(s["rv"]["ops"])
                     elif s["rv"]["k"] == "use":
-                        rets = [s["rv"]["ops"][0]]
+                        rets_all.append([s["rv"]["ops"][0]])
+            t_ = b["term"]
+            if t_["k"] == "call" and t_.get("dest") is not None and t_["dest"]["l"] == 0 and not t_["dest"]["p"]:
+                rets_all.append([{"k": "copy", "l": 0, "p": []}])
         for i, w in enumerate(want):
             got = set()
-            if i < len(rets) and rets[i].get("k") in ("copy", "move"):
-                got = {src[l] for l in ld.closure(rets[i]["l"]) if l in src}
+            for rets in rets_all:
+                if i < len(rets) and rets[i].get("k") in ("copy", "move"):
+                    got |= {src[l] for l in ld.closure(rets[i]["l"]) if l in src}
             ok = got == {w}
             r5.instance({"getter": gname, "position": i, "reads": sorted(x for x in got if x)}, ok)
             if not ok:
